@@ -1,11 +1,26 @@
 /-
   C05 — lexical conventions: literals, whitespace, separators, case, empty arguments.
+
+  A. SLOTS      `slots_of_derivation`, `slots_one_per_separator`, `rows_of_derivation`,
+                `three_separators_same_shape`, `semicolon_has_two_row_forms`,
+                `sequences_used_by_calls_and_arrays`, `accepted_shapes_derivable`,
+                `classify_flat_slots`, `classify_rows`
+  B. LITERALS   `number_literal_parse`, `number_literal`, `digitsVal_positional`, `string_literal`
+  C. WHITESPACE `whitespace_leading_trailing`, `whitespace_at_token_boundary`,
+                `single_character_tokens_selfdelimiting`, `quoted_literal_selfdelimiting`,
+                `whitespace_between_selfdelimiting_tokens`
+  D. CASE       `cell_case_insensitive_call`, `cell_case_insensitive_call_same_upper`,
+                `cell_label_parses`, `cell_case_insensitive`
+  E. SEPARATORS `separator_irrelevant`
 -/
 import HotXL.Model.Lexer
 import HotXL.Model.Syntax
+import HotXL.Model.Eval
+import HotXL.Lemmas.Slots
+import HotXL.Lemmas.Lexer
 
 namespace HotXL.Props.C05
-open HotXL HotXL.Lexer
+open HotXL HotXL.Lexer HotXL.Syntax HotXL.Slots HotXL.Eval
 
 /-- every rule of the generated master regular expression is one the model has a matcher for,
     with exactly the regular-expression text the matcher was written for -/
@@ -14,5 +29,566 @@ theorem lex_rules_are_the_modelled_ones :
       | some k => k.expectedRegex == r.2
       | none => false) = true := by
   decide +kernel
+
+/-! ## A. one argument per slot -/
+
+/-- **One argument per slot, in order, blank for an omitted slot.**  `Derives` is the
+    `expseq` nonterminal of parser.py (six productions, each with the list its Python action
+    builds; the same for `,`, `;` and `\`).  Whatever derivation reduces the item word `w`
+    (expressions and separators between the brackets of a call or an array literal) — hence
+    whichever one ply's LALR tables pick among the conflicts of this ambiguous grammar — the
+    list handed to the function is `slots w`: `w` split at its separators, an empty piece
+    arriving as `None`. -/
+theorem slots_of_derivation {α : Type} (w : List (ItemOf α)) (l : List (Option α))
+    (h : Derives w l) : l = slots w :=
+  Slots.slots_of_derivation w l h
+
+/-- an accepted sequence passes exactly (number of separators + 1) arguments, and no two
+    expressions are adjacent in it (every piece between separators holds at most one
+    expression, so `slots` forgets nothing) -/
+theorem slots_one_per_separator {α : Type} (w : List (ItemOf α)) (l : List (Option α))
+    (h : Derives w l) : l.length = sepCount w + 1 ∧ NoAdjacent w := by
+  refine ⟨?_, noAdjacent_of_derivation h⟩
+  rw [Slots.slots_of_derivation w l h, length_slots]
+
+/-- **Two rows.**  The row production `expseqcomma SEMICOLON expseqcomma` (and its backslash
+    copy) with action `[p[1]] + [p[3]]`: every derivation yields the list of the two rows,
+    each row the slots of its own word. -/
+theorem rows_of_derivation {α : Type} (w : List (RowItem α)) (r : List (List (Option α)))
+    (h : RowsDerive w r) : r = rowsOf w :=
+  Slots.rows_of_derivation w r h
+
+example : Derives (α := Nat) [.expr 1, .sep, .sep, .expr 3] [some 1, none, some 3] :=
+  (Derives.single 1).snocSepExpr 3
+example : slots (α := Nat) [.expr 1, .sep, .sep, .expr 3] = [some 1, none, some 3] := rfl
+example : Derives (α := Nat) [.sep, .expr 2, .sep] [none, some 2, none] :=
+  ((Derives.single 2).snocSep).sepCons
+/-- the grammar is ambiguous: a second derivation of the same word (same value, as proved) -/
+example : Derives (α := Nat) [.sep, .expr 2, .sep] [none, some 2, none] :=
+  ((Derives.single 2).sepCons).snocSep
+example : RowsDerive (α := Nat)
+    ([ItemOf.expr 1, .sep, .expr 2].map .inner ++ .semi :: [ItemOf.expr 3, .sep, .expr 4].map .inner)
+    [[some 1, some 2], [some 3, some 4]] :=
+  .rows ((Derives.single 1).snocExpr 2) ((Derives.single 3).snocExpr 4)
+
+/-! ### tie to the generated grammar table -/
+
+/-- symbols of the right-hand sides of `Derives`: expression, separator token, the
+    nonterminal itself -/
+inductive Sym where
+  | E | S | L
+  deriving DecidableEq, Repr
+
+/-- the right-hand sides of the six constructors of `Derives`, in order -/
+def derivesShapes : List (List Sym) :=
+  [[.E], [.S, .S], [.S, .L], [.L, .S], [.L, .S, .E], [.L, .S, .S, .E]]
+
+def Sym.name (nt sep : String) : Sym → String
+  | .E => "expression" | .S => sep | .L => nt
+
+/-- the six shapes written with a given nonterminal and separator token -/
+def sixShapes (nt sep : String) : List (List String) :=
+  derivesShapes.map (·.map (Sym.name nt sep))
+
+/-- (carrying function, right-hand side, %prec) of the productions of a nonterminal, in order -/
+def prodsOf (nt : String) : List (String × List String × String) :=
+  (Generated.productions.filter (fun p => p.2.1 = nt)).map (fun p => (p.1, p.2.2.1, p.2.2.2))
+
+def rhsOf (nt : String) : List (List String) := (prodsOf nt).map (·.2.1)
+
+def renameSym (tbl : List (String × String)) (s : String) : String :=
+  match tbl.find? (fun p => p.1 = s) with
+  | some p => p.2
+  | none => s
+
+/-- **The three separator rules are one rule.**  In the grammar extracted from parser.py the
+    productions of `expseqcomma`, of `expseqbackslash`, and the first six of `expseqsemicolon`
+    are exactly the six right-hand sides of `Derives`, written with the respective separator
+    token; they are images of one another under renaming the separator and the nonterminal;
+    each is carried by its `p_expseq_*` function and has no `%prec`.  (An edit of one
+    production, or of one copy and not the others, breaks this proof.) -/
+theorem three_separators_same_shape :
+    rhsOf "expseqcomma" = sixShapes "expseqcomma" "COMMA" ∧
+    rhsOf "expseqbackslash" = sixShapes "expseqbackslash" "BACKSLASH" ∧
+    (rhsOf "expseqsemicolon").take 6 = sixShapes "expseqsemicolon" "SEMICOLON" ∧
+    (rhsOf "expseqcomma").map (·.map (renameSym [("expseqcomma", "expseqbackslash"), ("COMMA", "BACKSLASH")]))
+      = rhsOf "expseqbackslash" ∧
+    (rhsOf "expseqcomma").map (·.map (renameSym [("expseqcomma", "expseqsemicolon"), ("COMMA", "SEMICOLON")]))
+      = (rhsOf "expseqsemicolon").take 6 ∧
+    (prodsOf "expseqcomma").all (fun p => p.1 = "p_expseq_comma" && p.2.2 = "") = true ∧
+    (prodsOf "expseqbackslash").all (fun p => p.1 = "p_expseq_backslash" && p.2.2 = "") = true ∧
+    (prodsOf "expseqsemicolon").all (fun p => p.1 = "p_expseq_semicolon" && p.2.2 = "") = true := by
+  decide +kernel
+
+/-- `expseqsemicolon` has exactly two more productions: the two row forms
+    `expseqcomma ; expseqcomma` and `expseqbackslash ; expseqbackslash` (the shape of
+    `RowsDerive`) -/
+theorem semicolon_has_two_row_forms :
+    (rhsOf "expseqsemicolon").drop 6 =
+      [["expseqcomma", "SEMICOLON", "expseqcomma"], ["expseqbackslash", "SEMICOLON", "expseqbackslash"]] := by
+  decide +kernel
+
+/-- the three sequence nonterminals are used, and only used, between the parentheses of a
+    call and between the braces of an array literal (besides their own productions) -/
+theorem sequences_used_by_calls_and_arrays :
+    (Generated.productions.filter (fun p =>
+        (p.2.2.1.contains "expseqcomma" || p.2.2.1.contains "expseqsemicolon" || p.2.2.1.contains "expseqbackslash")
+        && !(p.2.1 = "expseqcomma" || p.2.1 = "expseqsemicolon" || p.2.1 = "expseqbackslash"))).map
+      (fun p => (p.1, p.2.1, p.2.2.1)) =
+    [("p_expression_wargs", "expression", ["FUNCTION", "LPAREN", "expseqcomma", "RPAREN"]),
+     ("p_expression_wargs", "expression", ["FUNCTION", "LPAREN", "expseqsemicolon", "RPAREN"]),
+     ("p_expression_wargs", "expression", ["FUNCTION", "LPAREN", "expseqbackslash", "RPAREN"]),
+     ("p_array", "array", ["LBRACKET", "expseqsemicolon", "RBRACKET"]),
+     ("p_array", "array", ["LBRACKET", "expseqcomma", "RBRACKET"]),
+     ("p_array", "array", ["LBRACKET", "expseqbackslash", "RBRACKET"])] := by
+  decide +kernel
+
+/-! ### tie to the model parser -/
+
+/-- **The model accepts nothing the grammar cannot derive.**  If all separators of an item
+    list are of one kind and the model's acceptance test `acceptFlat` passes, the word is
+    derivable by the six productions. -/
+theorem accepted_shapes_derivable (items : List Item) (k : TK)
+    (_hk : ∀ j, Item.sep j ∈ items → j = k)
+    (h : acceptFlat (shapeOf items) = true) : ∃ l, Derives (toItems items) l :=
+  derives_of_acceptFlat items h
+
+/-- **Flat sequences of the model parser.**  Whenever `classify` (what the model parser does
+    with the items between the brackets of a call or array literal) answers "flat list `a`":
+    all separators are of one kind, the second component is empty, `a` is `slotsOf items`,
+    which is `slots` of the word (a blank arriving as `Expr.blankSlot`, which evaluates to
+    Python `None`), it has one entry per slot (number of separators + 1), and the word is
+    derivable by the six productions with exactly this value. -/
+theorem classify_flat_slots (items : List Item) (a b : List Expr)
+    (h : classify items = some (.flat, a, b)) :
+    b = [] ∧ a = slotsOf items ∧ a = (slots (toItems items)).map slotExpr ∧
+    a.length = sepCount (toItems items) + 1 ∧
+    (∃ k, ∀ j, Item.sep j ∈ items → j = k) ∧
+    ∃ l, Derives (toItems items) l ∧ a = l.map slotExpr := by
+  obtain ⟨hk, hacc, ha, hb⟩ := classify_flat_inv h
+  obtain ⟨l, hl⟩ := derives_of_acceptFlat items hacc
+  have hs : slotsOf items = (slots (toItems items)).map slotExpr :=
+    slotsOf_eq_slots items (noAdjacent_of_derivation hl)
+  refine ⟨hb, ha, ha.trans hs, ?_, single_kind_of_sepKinds hk, l, hl, ?_⟩
+  · rw [ha, hs, List.length_map, length_slots]
+  · rw [ha, hs, Slots.slots_of_derivation _ _ hl]
+
+/-- **Two-row sequences of the model parser.**  Whenever `classify` answers "rows `a`, `b`":
+    the items are `A ; B` with exactly one semicolon, all other separators are of one kind
+    `k` (not the semicolon) which occurs in the first row, `a` and `b` are the slots of the
+    two rows, and the word is derivable by the row production with value `[a, b]`. -/
+theorem classify_rows (items : List Item) (a b : List Expr)
+    (h : classify items = some (.rows, a, b)) :
+    ∃ A B k, items = A ++ Item.sep .SEMICOLON :: B ∧ k ≠ TK.SEMICOLON ∧
+      (∀ j, Item.sep j ∈ A ++ B → j = k) ∧ Item.sep k ∈ A ∧
+      a = (slots (toItems A)).map slotExpr ∧ b = (slots (toItems B)).map slotExpr ∧
+      (rowsOf (toRowItems items)).map (·.map slotExpr) = [a, b] ∧
+      ∃ r, RowsDerive (toRowItems items) r ∧ r.map (·.map slotExpr) = [a, b] := by
+  obtain ⟨hk2, hsemi, hn, hkA, haccA, haccB, ha, hb⟩ := classify_rows_inv h
+  obtain ⟨hitems, hA, hB⟩ := splitAtSemicolon_spec items (by omega)
+  generalize (splitAtSemicolon items).1 = A at *
+  generalize (splitAtSemicolon items).2 = B at *
+  have hB' : B.filter isSemi = [] := List.eq_nil_of_length_eq_zero (by omega)
+  obtain ⟨k, hkA', hkmem⟩ := sepKinds_eq_singleton hkA
+  have hkne : k ≠ .SEMICOLON := by
+    intro hk; subst hk
+    have := not_isSemi_of_filter_nil hA hkmem
+    simp [isSemi] at this
+  have hkitems : k ∈ sepKinds items := by
+    rw [mem_sepKinds, hitems]; exact List.mem_append_left _ hkmem
+  have hall : ∀ j, Item.sep j ∈ A ++ B → j = k := by
+    intro j hj
+    have hjitems : j ∈ sepKinds items := by
+      rw [mem_sepKinds, hitems]
+      rcases List.mem_append.mp hj with hj | hj
+      · exact List.mem_append_left _ hj
+      · exact List.mem_append_right _ (List.mem_cons_of_mem _ hj)
+    have hjs : isSemi (.sep j) = false := by
+      rcases List.mem_append.mp hj with hj | hj
+      · exact not_isSemi_of_filter_nil hA hj
+      · exact not_isSemi_of_filter_nil hB' hj
+    rcases mem_of_length_two hk2 hsemi hkitems (Ne.symm hkne) hjitems with h1 | h1
+    · subst h1; simp [isSemi] at hjs
+    · exact h1
+  obtain ⟨lA, hlA⟩ := derives_of_acceptFlat A haccA
+  obtain ⟨lB, hlB⟩ := derives_of_acceptFlat B haccB
+  have hsA := slotsOf_eq_slots A (noAdjacent_of_derivation hlA)
+  have hsB := slotsOf_eq_slots B (noAdjacent_of_derivation hlB)
+  have hrow : toRowItems items = (toItems A).map RowItem.inner ++ .semi :: (toItems B).map RowItem.inner := by
+    rw [hitems, toRowItems_append, toRowItems_of_no_semi A hA]
+    simp [toRowItems, toRowItems_of_no_semi B hB']
+  refine ⟨A, B, k, hitems, hkne, hall, hkmem, ha.trans hsA, hb.trans hsB, ?_, [lA, lB], ?_, ?_⟩
+  · rw [hrow, rowsOf_two, ha, hb, hsA, hsB]; rfl
+  · rw [hrow]; exact .rows hlA hlB
+  · rw [Slots.slots_of_derivation _ _ hlA, Slots.slots_of_derivation _ _ hlB, ha, hb, hsA, hsB]; rfl
+
+/-- every call node the model parser builds from a `FUNCTION` token is either the empty call
+    `F()` or gets its kind and argument lists from `classify` applied to the items between the
+    parentheses -/
+theorem call_node_from_classify (fuel : Nat) (f : List Char) (r rest : List Token) (e : Expr)
+    (h : parsePrimary (fuel + 1) (⟨.FUNCTION, f⟩ :: r) = .ok (e, rest)) :
+    e = .call f .empty [] [] ∨
+    ∃ items k a b, classify items = some (k, a, b) ∧ e = .call f k a b := by
+  rw [parsePrimary.eq_def] at h
+  simp only at h
+  split at h
+  · simp only [Except.ok.injEq, Prod.mk.injEq] at h
+    exact Or.inl h.1.symm
+  · split at h
+    · cases h
+    · rename_i items r2 _
+      split at h
+      · split at h
+        · rename_i k a b hc
+          simp only [Except.ok.injEq, Prod.mk.injEq] at h
+          exact Or.inr ⟨items, k, a, b, hc, h.1.symm⟩
+        · cases h
+      · cases h
+      · cases h
+  · cases h
+  · cases h
+
+/-- every array node the model parser builds from a `{` token gets its kind and element lists
+    from `classify` applied to the items between the braces -/
+theorem array_node_from_classify (fuel : Nat) (t : List Char) (r rest : List Token) (e : Expr)
+    (h : parsePrimary (fuel + 1) (⟨.LBRACKET, t⟩ :: r) = .ok (e, rest)) :
+    ∃ items k a b, classify items = some (k, a, b) ∧ e = .arr k a b := by
+  rw [parsePrimary.eq_def] at h
+  simp only at h
+  split at h
+  · cases h
+  · rename_i items r2 _
+    split at h
+    · split at h
+      · rename_i k a b hc
+        simp only [Except.ok.injEq, Prod.mk.injEq] at h
+        exact ⟨items, k, a, b, hc, h.1.symm⟩
+      · cases h
+    · cases h
+    · cases h
+
+/-- **An accepted call passes exactly one argument per slot.**  If the model parser accepts a
+    call with a flat argument list `a`, then `a` is the slot list of the items between the
+    parentheses (split at the separators, a blank for an omitted slot), one argument per slot,
+    and it is the value of a derivation by the grammar's six productions. -/
+theorem accepted_call_passes_slots (fuel : Nat) (f name : List Char) (r rest : List Token)
+    (a b : List Expr)
+    (h : parsePrimary (fuel + 1) (⟨.FUNCTION, f⟩ :: r) = .ok (.call name .flat a b, rest)) :
+    ∃ items, b = [] ∧ a = (slots (toItems items)).map slotExpr ∧
+      a.length = sepCount (toItems items) + 1 ∧
+      ∃ l, Derives (toItems items) l ∧ a = l.map slotExpr := by
+  rcases call_node_from_classify fuel f r rest _ h with h' | ⟨items, k, a', b', hc, h'⟩
+  · simp at h'
+  · simp only [Expr.call.injEq] at h'
+    obtain ⟨_, rfl, rfl, rfl⟩ := h'
+    obtain ⟨hb, _, ha, hlen, _, hd⟩ := classify_flat_slots items a b hc
+    exact ⟨items, hb, ha, hlen, hd⟩
+
+/-- an omitted slot arrives as blank (Python `None`), without any callback -/
+theorem blank_slot_is_blank (env : Env) (log : Log) : evalExpr env .blankSlot log = (.ok .blank, log) := by
+  simp only [evalExpr]
+
+-- `F(1,,3)`: three slots, the middle one blank; `;` and `\` give the same tree
+/-- the tree of `F(1,,3)` -/
+def exampleTree : Expr := .call ['F'] .flat [.num (.int ['1']), .blankSlot, .num (.int ['3'])] []
+example : parseFormula "F(1,,3)".toList = .ok exampleTree := by rfl
+example : parseFormula "F(1;;3)".toList = .ok exampleTree := by rfl
+example : parseFormula "F(1\\\\3)".toList = .ok exampleTree := by rfl
+example : parseFormula "F( 1 , , 3 )".toList = .ok exampleTree := by rfl
+-- `{1,2;3,4}`: the list of the two rows
+example : parseFormula "{1,2;3,4}".toList =
+    .ok (.arr .rows [.num (.int ['1']), .num (.int ['2'])] [.num (.int ['3']), .num (.int ['4'])]) := by rfl
+example : classify [.e (.num (.int ['1'])), .sep .COMMA, .sep .COMMA, .e (.num (.int ['3']))] =
+    some (.flat, [.num (.int ['1']), .blankSlot, .num (.int ['3'])], []) := by rfl
+example : classify [.e (.num (.int ['1'])), .sep .COMMA, .e (.num (.int ['2'])), .sep .SEMICOLON,
+      .e (.num (.int ['3'])), .sep .COMMA, .e (.num (.int ['4']))] =
+    some (.rows, [.num (.int ['1']), .num (.int ['2'])], [.num (.int ['3']), .num (.int ['4'])]) := by rfl
+-- rejected shapes stay rejected: `F(,)`, `F(1,,)`
+example : parseFormula "F(,)".toList = .error .syntax := by rfl
+example : parseFormula "F(1,,)".toList = .error .syntax := by rfl
+
+/-! ## E. the choice of separator -/
+
+/-- **The choice of `,` `;` or `\` never changes what a sequence means.**  For an item list
+    whose separators are all of one kind `k`, renaming them to any other kind `k'` leaves
+    `classify` — acceptance, shape and the slot list — unchanged. -/
+theorem separator_irrelevant (items : List Item) (k k' : TK)
+    (h : ∀ j, Item.sep j ∈ items → j = k) :
+    classify (renameSeps k' items) = classify items := by
+  have h1 : (sepKinds items).length ≤ 1 := sepKinds_length_le_one h
+  have h2 : (sepKinds (renameSeps k' items)).length ≤ 1 :=
+    sepKinds_length_le_one (k := k') (fun j hj => mem_renameSeps hj)
+  unfold classify
+  simp only [h1, h2, ite_true, renameSeps_isEmpty, shapeOf_renameSeps, slotsOf_renameSeps]
+
+
+/-! ## B. literals -/
+
+/-- what `Parser.parse` answers for a formula that parses to a numeric literal -/
+theorem parseTop_of_num (env : Env) {s : List Char} {l : NumLit} (hs : s ≠ [])
+    (h : parseFormula s = .ok (.num l)) :
+    parseTop env s = ({ result := some (evalNumLit l), error := none }, []) := by
+  have he : s.isEmpty = false := by cases s with | nil => exact absurd rfl hs | cons _ _ => rfl
+  unfold parseTop
+  rw [he, h]
+  simp only [Bool.false_eq_true, ite_false, evalExpr]
+  cases l <;> rfl
+
+/-- **Numeric literals parse to what they spell.**  For non-empty digit strings `a`, `b`, the
+    formula texts `a`, `a.b`, `.b`, `a%`, `a^b` are tokenized and parsed to the literal forms
+    `int a`, `dec a b`, `dotDec b`, `pct a`, `pow a b` (nothing else in the tree). -/
+theorem number_literal_parse (a b : List Char) (hna : a ≠ []) (ha : ∀ c ∈ a, isDigit c = true)
+    (hnb : b ≠ []) (hb : ∀ c ∈ b, isDigit c = true) :
+    parseFormula a = .ok (.num (.int a)) ∧
+    parseFormula (a ++ '.' :: b) = .ok (.num (.dec a b)) ∧
+    parseFormula ('.' :: b) = .ok (.num (.dotDec b)) ∧
+    parseFormula (a ++ ['%']) = .ok (.num (.pct a)) ∧
+    parseFormula (a ++ '^' :: b) = .ok (.num (.pow a b)) := by
+  refine ⟨?_, ?_, ?_, ?_, ?_⟩
+  · unfold parseFormula; rw [tokenize_int hna ha]; rfl
+  · unfold parseFormula; rw [tokenize_dec hna ha hnb hb]; rfl
+  · unfold parseFormula; rw [tokenize_dot_digits hnb hb]; rfl
+  · unfold parseFormula; rw [tokenize_pct hna ha]; rfl
+  · unfold parseFormula; rw [tokenize_pow hna ha hnb hb]; rfl
+
+/-- **A numeric literal evaluates to exactly the number it spells** (`digitsVal` = the
+    positional decimal value, see `digitsVal_positional`): `a` is the integer `a`; `a.b` the
+    rational `a + b / 10^|b|`; `.b` is `b / 10^|b|`; `a%` is `a / 100`; `a^b` the integer power.
+    (Floats are exact rationals in the model; Python rounds them to the nearest double —
+    trusted base.)  Stated for the whole of `Parser.parse`: the record has this result, no
+    error, and no callback is called. -/
+theorem number_literal (env : Env) (a b : List Char) (hna : a ≠ []) (ha : ∀ c ∈ a, isDigit c = true)
+    (hnb : b ≠ []) (hb : ∀ c ∈ b, isDigit c = true) :
+    parseTop env a = ({ result := some (.num (.int (digitsVal a))), error := none }, []) ∧
+    parseTop env (a ++ '.' :: b) =
+      ({ result := some (.num (.flt ((digitsVal a : Rat) + (digitsVal b : Rat) / ((10 ^ b.length : Nat) : Rat)))),
+         error := none }, []) ∧
+    parseTop env ('.' :: b) =
+      ({ result := some (.num (.flt ((digitsVal b : Rat) / ((10 ^ b.length : Nat) : Rat)))), error := none }, []) ∧
+    parseTop env (a ++ ['%']) =
+      ({ result := some (.num (.flt ((digitsVal a : Rat) / 100))), error := none }, []) ∧
+    parseTop env (a ++ '^' :: b) =
+      ({ result := some (.num (.int ((digitsVal a : Int) ^ digitsVal b))), error := none }, []) := by
+  obtain ⟨h1, h2, h3, h4, h5⟩ := number_literal_parse a b hna ha hnb hb
+  exact ⟨parseTop_of_num env hna h1, parseTop_of_num env (by simp) h2, parseTop_of_num env (by simp) h3,
+    parseTop_of_num env (by simp) h4, parseTop_of_num env (by simp) h5⟩
+
+/-- `digitsVal` is the usual positional value of a digit string: empty is 0, appending a digit
+    `d` gives `10 * value + digit d`, concatenation shifts by a power of ten, and the decimal
+    spelling `str(n)` of a natural number has value `n`. -/
+theorem digitsVal_positional :
+    digitsVal [] = 0 ∧
+    (∀ (a : List Char) (d : Char), digitsVal (a ++ [d]) = 10 * digitsVal a + (d.toNat - 48)) ∧
+    (∀ a b : List Char, digitsVal (a ++ b) = digitsVal a * 10 ^ b.length + digitsVal b) ∧
+    (∀ n : Nat, digitsVal (PyNum.natToDec n) = n) :=
+  ⟨digitsVal_nil, digitsVal_snoc, digitsVal_append, digitsVal_natToDec⟩
+
+example : parseFormula "12.50".toList = .ok (.num (.dec ['1', '2'] ['5', '0'])) := by rfl
+example : parseFormula ".5".toList = .ok (.num (.dotDec ['5'])) := by rfl
+example : parseFormula "50%".toList = .ok (.num (.pct ['5', '0'])) := by rfl
+example : parseFormula "2^10".toList = .ok (.num (.pow ['2'] ['1', '0'])) := by rfl
+example : evalNumLit (.pow ['2'] ['1', '0']) = .num (.int 1024) := by rfl
+example : evalNumLit (.dec ['1', '2'] ['5', '0']) = .num (.flt (25 / 2)) :=
+  congrArg (fun q => Value.num (Num.flt q)) (by decide +kernel)
+example : evalNumLit (.pct ['5', '0']) = .num (.flt (1 / 2)) :=
+  congrArg (fun q => Value.num (Num.flt q)) (by decide +kernel)
+
+/-- **A quoted literal is exactly the characters between its quotes.**  For either quote
+    character `q` and every text `s` that does not contain `q` — backslashes are allowed,
+    also a trailing one (`"a\"`: the matcher backtracks from reading `\"` as an escaped
+    quote) — the formula `q s q` is one `STRING` token, parses to `Expr.str s`, and
+    `Parser.parse` answers the text `s` with no error and no callback. -/
+theorem string_literal (env : Env) (q : Char) (hq : q = '"' ∨ q = '\'') (s : List Char) (hs : q ∉ s) :
+    parseFormula (q :: s ++ [q]) = .ok (.str s) ∧
+    parseTop env (q :: s ++ [q]) = ({ result := some (.str s), error := none }, []) := by
+  have hp : parseFormula (q :: s ++ [q]) = .ok (.str s) := by
+    unfold parseFormula
+    rw [tokenize_string hq hs]
+    show Except.ok (Expr.str (stripQuotes (q :: s ++ [q]))) = _
+    simp [stripQuotes]
+  refine ⟨hp, ?_⟩
+  unfold parseTop
+  rw [hp]
+  simp only [List.cons_append, List.isEmpty_cons, Bool.false_eq_true, ite_false, evalExpr]
+  rfl
+
+example : parseFormula ['"', 'a', '\\', '"'] = .ok (.str ['a', '\\']) := by rfl
+example : parseFormula "'say \"hi\", 1;2'".toList = .ok (.str "say \"hi\", 1;2".toList) := by rfl
+example : ('"' : Char) ∉ ['a', '\\'] := by decide
+
+/-! ## D. case of cell references -/
+
+/-- **`call_cell_value` is case-insensitive**: the label is upper-cased before anything else,
+    and upper-casing is idempotent, so a label and its upper-case spelling give the same value
+    and the same `callCellValue` event. -/
+theorem cell_case_insensitive_call (env : Env) (l : List Char) (log : Log) :
+    callCell env (Cell.upper l) log = callCell env l log := by
+  unfold callCell
+  rw [Cell.upper_idem]
+
+/-- two spellings with the same upper-case form are the same cell to `call_cell_value` -/
+theorem cell_case_insensitive_call_same_upper (env : Env) (l l' : List Char) (log : Log)
+    (h : Cell.upper l = Cell.upper l') : callCell env l log = callCell env l' log := by
+  rw [← cell_case_insensitive_call env l, ← cell_case_insensitive_call env l', h]
+
+/-- a cell-shaped label (optional `$`, letters, optional `$`, digits) is one cell token and
+    parses to a cell reference with exactly that text -/
+theorem cell_label_parses (ca ra : Bool) (cs ds : List Char) (hcs : cs ≠ [])
+    (hl : ∀ c ∈ cs, isAlpha c = true) (hds : ds ≠ []) (hd : ∀ c ∈ ds, isDigit c = true) :
+    parseFormula (cellText ca ra cs ds) = .ok (.cell (cellText ca ra cs ds)) := by
+  unfold parseFormula
+  rw [tokenize_cell hcs hl hds hd]
+  cases ca <;> cases ra <;> rfl
+
+/-- **Cell references are case-insensitive.**  For a cell-shaped label `l` (optional `$`,
+    letters of either case, optional `$`, digits) the formulas `l` and `upper l` — and any two
+    spellings `l`, `l'` of the same letters in different case — give the same record and the
+    same events (the `callCellValue` listener sees the upper-case label both times). -/
+theorem cell_case_insensitive (env : Env) (ca ra : Bool) (cs cs' ds : List Char) (hcs : cs ≠ [])
+    (hl : ∀ c ∈ cs, isAlpha c = true) (hl' : ∀ c ∈ cs', isAlpha c = true)
+    (hds : ds ≠ []) (hd : ∀ c ∈ ds, isDigit c = true) (hsame : Cell.upper cs = Cell.upper cs') :
+    parseTop env (cellText ca ra cs ds) = parseTop env (cellText ca ra cs' ds) ∧
+    parseTop env (cellText ca ra cs ds) = parseTop env (Cell.upper (cellText ca ra cs ds)) := by
+  have hcs' : cs' ≠ [] := by
+    intro e; subst e
+    exact hcs (Cell.upper_eq_nil_iff.mp (by rw [hsame]; rfl))
+  have hne : ∀ x : List Char, x ≠ [] → (cellText ca ra x ds).isEmpty = false := by
+    intro x hx
+    cases x with
+    | nil => exact absurd rfl hx
+    | cons c x => cases ca <;> simp [cellText]
+  have top : ∀ x : List Char, x ≠ [] → (∀ c ∈ x, isAlpha c = true) →
+      parseTop env (cellText ca ra x ds) =
+        (finish (callCell env (cellText ca ra x ds) []).1, (callCell env (cellText ca ra x ds) []).2) := by
+    intro x hx hlx
+    unfold parseTop
+    rw [hne x hx, cell_label_parses ca ra x ds hx hlx hds hd]
+    simp only [Bool.false_eq_true, ite_false, evalExpr]
+  have hupper : ∀ c ∈ Cell.upper cs, isAlpha c = true := by
+    intro c hc
+    simp only [Cell.upper, List.mem_map] at hc
+    obtain ⟨d, hdm, rfl⟩ := hc
+    exact isAlpha_upperChar (hl d hdm)
+  have hune : Cell.upper cs ≠ [] := fun e => hcs (Cell.upper_eq_nil_iff.mp e)
+  have hlab : ∀ x y : List Char, Cell.upper x = Cell.upper y →
+      Cell.upper (cellText ca ra x ds) = Cell.upper (cellText ca ra y ds) := by
+    intro x y hxy
+    rw [upper_cellText ca ra x ds hd, upper_cellText ca ra y ds hd, hxy]
+  constructor
+  · rw [top cs hcs hl, top cs' hcs' hl', cell_case_insensitive_call_same_upper env _ _ [] (hlab cs cs' hsame)]
+  · rw [upper_cellText ca ra cs ds hd, top cs hcs hl, top _ hune hupper,
+      cell_case_insensitive_call_same_upper env _ _ [] (hlab cs (Cell.upper cs) (Cell.upper_idem cs).symm)]
+
+example : parseFormula "$ab$12".toList = .ok (.cell "$ab$12".toList) := by rfl
+example : Cell.upper "aB".toList = Cell.upper "Ab".toList := by decide
+
+
+/-! ## C. white space
+
+  What is proved, precisely:
+  * `whitespace_leading_trailing` — for EVERY text: white space before and after it is dropped;
+  * `whitespace_at_token_boundary` — white space inserted at ONE real token boundary at the
+    cursor is dropped; "real boundary" = the text `t1` is a token on its own and the lexer takes
+    exactly `t1` from `t1 ++ rest` (this excludes by itself the function name before `(`, which
+    only is a `FUNCTION` token with the parenthesis after it, and places inside a token);
+  * `whitespace_between_selfdelimiting_tokens` — for texts made of self-delimiting tokens (the
+    17 single-character tokens `{ } & : ; , \ * / - + ^ ( ) ! = %` and quoted literals), white
+    space of any amount, also none, before / between / after ALL tokens at once is dropped.
+  Not proved: insertion at several boundaries at once between maximal-munch tokens
+  (identifiers, numbers, `<` `>`-operators) in one statement; each such boundary is covered one
+  at a time by `whitespace_at_token_boundary` (at the lexer's cursor). -/
+
+/-- equal token streams give equal `Parser.parse` answers (for non-empty texts) -/
+theorem parseTop_congr (env : Env) {s t : List Char} (hs : s ≠ []) (ht : t ≠ [])
+    (h : tokenize s = tokenize t) : parseTop env s = parseTop env t := by
+  have e1 : s.isEmpty = false := by cases s with | nil => exact absurd rfl hs | cons _ _ => rfl
+  have e2 : t.isEmpty = false := by cases t with | nil => exact absurd rfl ht | cons _ _ => rfl
+  unfold parseTop parseFormula
+  rw [e1, e2, h]
+
+/-- **Leading and trailing white space never matter.**  For every text `s` and all runs `ws`,
+    `ws'` of white-space characters (Python's `\s`), `ws ++ s ++ ws'` has the same token stream,
+    hence the same parse, and (for a non-empty `s`) the same `Parser.parse` record and events. -/
+theorem whitespace_leading_trailing (env : Env) (s ws ws' : List Char)
+    (hws : ∀ c ∈ ws, isSpace c = true) (hws' : ∀ c ∈ ws', isSpace c = true) :
+    tokenize (ws ++ s ++ ws') = tokenize s ∧
+    parseFormula (ws ++ s ++ ws') = parseFormula s ∧
+    (s ≠ [] → parseTop env (ws ++ s ++ ws') = parseTop env s) := by
+  have h : tokenize (ws ++ s ++ ws') = tokenize s := by
+    rw [List.append_assoc, tokenize_leading_ws hws, tokenize_trailing_ws hws' _ _ (Nat.le_refl _)]
+  refine ⟨h, by unfold parseFormula; rw [h], fun hs => parseTop_congr env ?_ hs h⟩
+  cases s with
+  | nil => exact absurd rfl hs
+  | cons c cs => cases ws <;> simp
+
+/-- **White space at a real token boundary is dropped.**  Let `t1` be a text that on its own is
+    exactly one token of kind `k` (not white space), and let the lexer, standing in front of
+    `t1 ++ rest`, take exactly `t1` as a `k` token (the boundary after `t1` is a real one:
+    nothing of `rest` fuses with it).  Then for every run `ws` of white-space characters the
+    lexer produces the same tokens from `t1 ++ ws ++ rest` as from `t1 ++ rest`: the token
+    `t1` followed by the tokens of `rest`. -/
+theorem whitespace_at_token_boundary (t1 rest ws : List Char) (k : TK)
+    (hws : ∀ c ∈ ws, isSpace c = true)
+    (h1 : lexOne ruleOrder t1 = some (k, t1.length))
+    (h2 : lexOne ruleOrder (t1 ++ rest) = some (k, t1.length)) (hk : k ≠ .WHITESPACE) :
+    tokenize (t1 ++ ws ++ rest) = tokenize (t1 ++ rest) ∧
+    tokenize (t1 ++ rest) = ⟨k, t1⟩ :: tokenize rest ∧
+    parseFormula (t1 ++ ws ++ rest) = parseFormula (t1 ++ rest) := by
+  obtain ⟨ha, hb⟩ := tokenize_insert_ws hws h1 h2 hk
+  rw [List.append_assoc]
+  refine ⟨ha.trans hb.symm, hb, ?_⟩
+  unfold parseFormula
+  rw [ha, hb]
+
+-- the hypotheses are satisfiable: `12` before `+3`, `<` before `5`, `A1` before `:B2`
+example : lexOne ruleOrder "12".toList = some (.NUMBER, 2) ∧
+    lexOne ruleOrder ("12".toList ++ "+3".toList) = some (.NUMBER, 2) := by decide +kernel
+example : lexOne ruleOrder "<".toList = some (.LESS, 1) ∧
+    lexOne ruleOrder ("<".toList ++ "5".toList) = some (.LESS, 1) := by decide +kernel
+example : lexOne ruleOrder "A1".toList = some (.RELATIVE_CELL, 2) ∧
+    lexOne ruleOrder ("A1".toList ++ ":B2".toList) = some (.RELATIVE_CELL, 2) := by decide +kernel
+-- and they fail where they must: a function name is no `FUNCTION` token on its own, `<` fuses with `=`
+example : lexOne ruleOrder "SUM".toList = some (.VARIABLE, 3) ∧
+    lexOne ruleOrder "SUM(1)".toList = some (.FUNCTION, 3) := by decide +kernel
+example : lexOne ruleOrder "<=".toList = some (.LESSEQ, 2) := by decide +kernel
+example : tokenize "SUM (1)".toList ≠ tokenize "SUM(1)".toList := by decide +kernel
+
+/-- the 17 single-character tokens are self-delimiting: taken as one token whatever follows -/
+theorem single_character_tokens_selfdelimiting (c : Char) (k : TK) (h : (c, k) ∈ singles) :
+    SelfDelim k [c] := selfDelim_single h
+
+/-- a quoted literal whose text contains neither its quote character nor a final backslash is
+    self-delimiting -/
+theorem quoted_literal_selfdelimiting (q : Char) (hq : q = '"' ∨ q = '\'') (body : List Char)
+    (hb : q ∉ body) (hlast : body.getLast? ≠ some '\\') : SelfDelim .STRING (q :: body ++ [q]) :=
+  selfDelim_string hq hb hlast
+
+/-- **White space between self-delimiting tokens is dropped, everywhere at once.**  For a list
+    of self-delimiting tokens (`SelfDelim`: e.g. the single-character tokens and quoted
+    literals above), written with arbitrary runs of white space — possibly empty — before each
+    token and after the last, the token stream is the list of the tokens; so it is the same
+    for every choice of the gaps, in particular the same as with no white space at all. -/
+theorem whitespace_between_selfdelimiting_tokens (items : List (List Char × TK × List Char))
+    (tail : List Char)
+    (h : ∀ i ∈ items, (∀ c ∈ i.1, isSpace c = true) ∧ SelfDelim i.2.1 i.2.2)
+    (ht : ∀ c ∈ tail, isSpace c = true) :
+    tokenize (renderGaps items tail) = items.map (fun i => ⟨i.2.1, i.2.2⟩) ∧
+    tokenize (renderGaps items tail) = tokenize (renderGaps (items.map (fun i => ([], i.2))) []) := by
+  have h1 := tokenize_renderGaps items tail h ht
+  have h2 := tokenize_renderGaps (items.map (fun i => ([], i.2))) []
+    (by
+      intro i hi
+      simp only [List.mem_map] at hi
+      obtain ⟨j, hj, rfl⟩ := hi
+      exact ⟨by simp, (h j hj).2⟩)
+    (by simp)
+  refine ⟨h1, ?_⟩
+  rw [h1, h2, List.map_map]
+  rfl
+
+example : renderGaps [(" ".toList, .LPAREN, "(".toList), ("\t".toList, .STRING, "'a b'".toList),
+    ([], .COMMA, ",".toList), ("\n ".toList, .RPAREN, ")".toList)] " ".toList = " (\t'a b',\n ) ".toList := by
+  decide
+example : isSpace ' ' = true ∧ isSpace '\t' = true ∧ isSpace '\n' = true ∧ isSpace ' ' = true := by decide
 
 end HotXL.Props.C05
